@@ -55,9 +55,14 @@ def traced_cases(ctx, n_docs, p_try, rng=None, n_edits=3):
     prio = ST.priority_from(random.Random(pseed)) if rng.random() < 0.85 else None
     info = {'prog': {c: list_of(a) for c, a in prog.items()}, 'd': d, 'r': r, 'prio': pseed if prio else None, 'edits': []}
     try:
-      e, loops = ST.new_traced_doc(prog, d, r, prio)
+      e, loops = ST.limited(lambda: ST.new_traced_doc(prog, d, r, prio))
     except core.TieBroken:
       raise
+    except ST.Timeout:
+      ctx.violation('nontermination', 'recalculation of a grammar document did not terminate within the time limit', info)
+      if too_many_hangs(ctx):
+        break
+      continue
     except Exception as x:
       ctx.violation('exception', 'building a grammar document raised %r' % (x,), info)
       continue
@@ -76,7 +81,11 @@ def traced_cases(ctx, n_docs, p_try, rng=None, n_edits=3):
       b = ST.gen_edit(rng, e, prog)
       info['edits'].append(b)
       try:
-        G.apply(e, b)
+        ST.limited(lambda: G.apply(e, b))
+      except ST.Timeout:
+        ctx.violation('nontermination', 'recalculation after a bundle did not terminate within the time limit',
+                      copy.deepcopy(info))
+        break
       except Exception as x:
         ctx.violation('exception', 'a grammar bundle raised %r' % (x,), copy.deepcopy(info))
         break
@@ -112,7 +121,7 @@ def run_tie(ctx, name, cases, shard=60):
 
 
 def correspond(ctx):
-  cases = traced_cases(ctx, ctx.n(40, 900), p_try=0.15)
+  cases = traced_cases(ctx, ctx.n(40, 500), p_try=0.15)
   for term, info, st, strict in cases:
     nontrivial = bool(st.get('need') or st.get('cycle') or st.get('opp'))
     ctx.count(term, nontrivial=nontrivial, sample=info if nontrivial else None,
@@ -159,8 +168,11 @@ def run_script(script, pseed):
   res = []
   for b in script:
     try:
-      out = G.apply(e, b)
+      out = ST.limited(lambda: G.apply(e, b))
       res.append(('ok', G.canon(G.snapshot(e)), sorted(G.canon(x) for x in G.reprs(out.stored))))
+    except ST.Timeout:
+      res.append(('timeout',))
+      break
     except Exception as x:    # the engine rolled the bundle back
       G.clean(e)
       res.append(('exc', type(x).__name__, G.canon(G.snapshot(e))))
@@ -170,11 +182,17 @@ def run_script(script, pseed):
 def compare_runs(script, pseeds):
   """None, or (bundle index, pseed, description) for the first difference from the engine's own order."""
   base = run_script(script, None)
+  for i, a in enumerate(base):
+    if a[0] == 'timeout':
+      return i, None, 'bundle %d: recalculation did not terminate within the time limit (engine order)' % i
   for ps in pseeds:
     other = run_script(script, ps)
     for i, (a, b) in enumerate(zip(base, other)):
       if a == b:
         continue
+      if b[0] == 'timeout':
+        return i, ps, 'bundle %d: recalculation did not terminate within the time limit (%s)' % (
+          i, 'engine order' if a[0] == 'timeout' else 'permutation %d' % ps)
       if a[0] != b[0]:
         return i, ps, 'bundle %d: %s under the engine order, %s under permutation %d' % (i, a[:2] if a[0] == 'exc' else 'ok',
                                                                                       b[:2] if b[0] == 'exc' else 'ok', ps)
@@ -227,13 +245,15 @@ def gen_prog_case(rng, p_try):
   d, r = ST.gen_rows(rng, n)
   versions = [copy.deepcopy(prog)]
   e, _ = G.new_doc()
-  G.apply(e, [ST.table_action(prog)])
-  G.apply(e, [ST.rows_action(d, r)])
   edits = []
+  try:
+    ST.limited(lambda: (G.apply(e, [ST.table_action(prog)]), G.apply(e, [ST.rows_action(d, r)])))
+  except Exception:
+    return versions, d, r, edits
   for _ in range(rng.choice([0, 1, 2, 3])):
     b = ST.gen_edit(rng, e, prog)
     try:
-      G.apply(e, b)
+      ST.limited(lambda: G.apply(e, b))
     except Exception:
       break
     edits.append(b)
@@ -241,24 +261,34 @@ def gen_prog_case(rng, p_try):
   return versions, d, r, edits
 
 
+def too_many_hangs(ctx):
+  return sum(1 for v in ctx.violations if v['kind'] == 'nontermination') >= 3
+
+
 def search(ctx):
-  k = ctx.n(2, 4)
+  k = ctx.n(2, 3)
   # (a) shared random histories, acyclic programs, full vocabulary
-  for _ in range(ctx.n(14, 300)):
+  for _ in range(ctx.n(14, 150)):
     seed = ctx.rng.randrange(1 << 30)
     nb = ctx.rng.choice([4, 6, 8])
     pseeds = [ctx.rng.randrange(1 << 30) for _ in range(k)]
     w = {'stream': 'hist', 'seed': seed, 'nb': nb, 'pseeds': pseeds}
-    script = hist_script(seed, nb)
+    try:
+      script = ST.limited(lambda: hist_script(seed, nb), 120)
+    except ST.Timeout:
+      ctx.violation('nontermination', 'a shared random history did not finish within the time limit', w)
+      continue
     diff = compare_runs(script, pseeds)
     ctx.count(('hist', seed), nontrivial=True, kind='search:history', sample=None)
     ctx.bump('search:bundles', len(script) * (k + 1))
     if diff:
-      w['pseeds'] = [diff[1]]
-      ctx.violation('order_dependent', diff[2], w)
+      w['pseeds'] = [diff[1]] if diff[1] is not None else []
+      ctx.violation('nontermination' if 'did not terminate' in diff[2] else 'order_dependent', diff[2], w)
+    if too_many_hangs(ctx):
+      return
   ctx.log('search: histories done')
   # (b) cyclic grammar programs without handlers; (c) with handlers
-  for stream, p_try, n in (('strict', 0.0, ctx.n(60, 1500)), ('handlers', 0.5, ctx.n(25, 400))):
+  for stream, p_try, n in (('strict', 0.0, ctx.n(60, 800)), ('handlers', 0.5, ctx.n(25, 150))):
     for _ in range(n):
       versions, d, r, edits = gen_prog_case(ctx.rng, p_try)
       pseeds = [ctx.rng.randrange(1 << 30) for _ in range(k)]
@@ -268,8 +298,11 @@ def search(ctx):
       cyc = on_cycle_with_try(versions)
       ctx.count(('prog', repr(w)), nontrivial=True, kind='search:%s%s' % (stream, '+try-on-cycle' if cyc else ''))
       if diff:
-        w['pseeds'] = [diff[1]]
-        ctx.violation('handler_on_cycle' if cyc else 'order_dependent', diff[2], w)
+        w['pseeds'] = [diff[1]] if diff[1] is not None else []
+        kind = 'nontermination' if 'did not terminate' in diff[2] else 'handler_on_cycle' if cyc else 'order_dependent'
+        ctx.violation(kind, diff[2], w)
+      if too_many_hangs(ctx):
+        return
 
 
 def replay(ctx, w):
